@@ -120,7 +120,12 @@ def gen_op(rng, pool, weights=None):
             return ["from_components", cc, {"bank_code": bank, "branch_code": branch,
                                             "account_code": acct}], None
         if r == 2:
-            return ["generate", cc, bank + "9" * 12, acct, branch], None
+            which = rng.randrange(3)  # each "exceeds maximum size" branch
+            if which == 0:
+                return ["generate", cc, bank + "9" * 12, acct, branch], None
+            if which == 1:
+                return ["generate", cc, bank, acct + "7" * 30, branch], None
+            return ["generate", cc, bank, acct, branch + "12345678"], None
         return ["generate", cc, bank, acct, branch], None
     if fam == "random":
         if pool.get("retry_cases") and rng.random() < 0.2:
